@@ -131,6 +131,7 @@ def job_dfa_exercise(job, what, n, k, length=None, perm=None, fold=False):
     job.decoders['printed'] = printed_json(ev)
     job.oblige('the checker prints OK (and nothing else) for the answer generated by apply_command(%r)' % what, only_ok_bad(ev), replay=rp)
     job.failures_as_obligations(replay=rp)
+    job.sample_replays = 3
     return job.solve()
 
 
@@ -158,6 +159,7 @@ def job_nfa2dfa(job, n, k, eps='_'):
     job.decoders['printed'] = printed_json(ev)
     job.oblige("check_nfa2dfa prints OK (and nothing else) for the DFA generated by apply_command('nfa2dfa')", only_ok_bad(ev), replay=rp)
     job.failures_as_obligations(replay=rp)
+    job.sample_replays = 3
     return job.solve()
 
 
@@ -199,6 +201,7 @@ def job_minimal(job, ref, which, concrete=False):
     job.decoders['printed'] = printed_json(ev)
     job.oblige('check_dfa_minimal prints OK (and nothing else) for the DFA generated by apply_command(%r)' % which, only_ok_bad(ev), replay=rp)
     job.failures_as_obligations(replay=rp)
+    job.sample_replays = 3
     return job.solve()
 
 
@@ -269,6 +272,7 @@ def job_chomsky(job, family, phase, nsym=6, length=3, eps=None):
     job.oblige("cfg_check_chomsky prints OK (and nothing else) for the grammar generated by apply_command('chomsky%d')" % phase, only_ok_bad(ev), replay=rp)
     job.must_reach('some grammar of the family is printable and non-degenerate', TRUE)
     job.failures_as_obligations(replay=rp)
+    job.sample_replays = 3
     return job.solve()
 
 
